@@ -15,6 +15,9 @@ import TbbVerif.Proofs.C02.BinSem
 import TbbVerif.Proofs.C02.Tso
 import TbbVerif.Proofs.C02.Flag
 import TbbVerif.Proofs.C02.WaitCtx
+import TbbVerif.Proofs.C02.BQThm
+import TbbVerif.Proofs.C02.AEThm
+import TbbVerif.Proofs.C02.EXThm
 import TbbVerif.Generated.C02
 
 namespace TbbVerif.C02
@@ -452,5 +455,307 @@ theorem flag_no_missed_work (ps cs ts : List Nat) (sched : List Tid) (s : Flag.S
 example : -- non-vacuity: a cleaner interrupted by a publisher between its predicate and its final CAS does not clear
     let s := (Flag.sys [2] [1] []).run [0, 0, 0, 0, 1, 1, 1, 0, 0, 0, 0, 1]
     s.flag = 1 ∧ s.work = 2 ∧ s.req = 1 ∧ s.rel = 0 := by decide
+
+/-! ### concurrent_bounded_queue: blocked push / pop complete; abort wakes everybody
+
+Model `BQ` (Model/C02BQ.lean): N threads running any programs of `push / pop / try_push / try_pop / abort` on one queue of
+capacity `cap`, at the granularity of the atomic accesses of `internal_push` / `internal_pop` / `internal_push_if_not_full`
+/ `internal_try_pop_impl` / `internal_abort` and of the two `concurrent_monitor`s (`slots_avail`, `items_avail`), each of
+which IS a Monitor model instance with ticket-tagged waits (`ctx = cond = target`) and `notify(predicate_leq(ticket))` /
+`abort_all` calls.  In every reachable state both monitors satisfy the Monitor invariant (all the `monitor_*` facts above:
+`BQ.reach_minv`), for every history. -/
+
+/-- **A blocked `push` / `pop` whose condition has come true is about to be woken** (no lost wake-up on the ticket-tagged
+waits).  Any capacity, any number of threads, any programs, any schedule.  Hypothesis `clean` (decidable on the reached
+state, monotone along a run) excludes exactly the two history shapes recorded as C09 findings: a `head_counter--` of an
+aborted pop executed after a later pop ticket had been handed out ("abort racing a new pop": `raced`), and an invalidated
+ticket (an aborted blocked push ran `abort_push`: `ninvalid`; throwing constructors are not in the model's alphabet).
+Then, in every reachable state:
+(push) a thread in `commit_wait` / parked in `P()` with a closed semaphore on `slots_avail` with context
+`target = ticket - my_capacity`, while `head_counter > target` (the slot of its ticket is within the capacity), is owed a
+`V` by a notifier that has already dequeued it, or the thread that took pop ticket `target` (its `head_counter++` /
+successful CAS made the condition true) still holds its pending `notify(slots_avail, predicate_leq(target))`: it is
+between its ticket and the end of that call's wait-set scan, and the scan will dequeue the sleeper (`pendingFor`);
+(pop) symmetrically on `items_avail` with context `target`, while `tail_counter > target`, with the thread that took push
+ticket `target`. -/
+theorem bq_blocked_ops_complete (cap : Nat) (progs : List (List BQ.Op)) (sched : List Tid) (s : BQ.St)
+    (hs : s = (BQ.sys cap progs).run sched) (hclean : s.clean = true) :
+    (∀ (i : Nat) (sl : Sleeper), s.slots.slp[i]? = some sl → (sl.pc = .commit ∨ sl.pc = .park) → sl.sem = 0 →
+      sl.ctx < s.head →
+      (∃ (j : Nat) (n : Notifier), s.slots.ntf[j]? = some n ∧ i ∈ n.temp) ∨
+      (∃ (j : Nat) (th : BQ.Thr) (n : Notifier), s.thr[j]? = some th ∧ s.slots.ntf[j]? = some n ∧
+        th.ops ≠ [] ∧ th.ticket = sl.ctx ∧ BQ.popPending th.pc = true ∧ pendingFor n sl.ctx sl.ctx = true)) ∧
+    (∀ (i : Nat) (sl : Sleeper), s.items.slp[i]? = some sl → (sl.pc = .commit ∨ sl.pc = .park) → sl.sem = 0 →
+      sl.ctx < s.tail →
+      (∃ (j : Nat) (n : Notifier), s.items.ntf[j]? = some n ∧ i ∈ n.temp) ∨
+      (∃ (j : Nat) (th : BQ.Thr) (n : Notifier), s.thr[j]? = some th ∧ s.items.ntf[j]? = some n ∧
+        th.ops ≠ [] ∧ th.ticket = sl.ctx ∧ BQ.pushPending th.pc = true ∧ pendingFor n sl.ctx sl.ctx = true)) := by
+  subst hs
+  have hA := BQ.reach_all cap progs sched
+  obtain ⟨hjS, hjI⟩ := hA.j.j hclean
+  constructor
+  · intro i sl hi hpc hsem hlt
+    rcases BQ.mon_parked hA.m.slots hjS hi hpc hsem hlt with h | ⟨j, n, hj, hp⟩
+    · exact Or.inl h
+    · right
+      have hjl : j < ((BQ.sys cap progs).run sched).thr.length := by rw [← hA.l.lenS]; exact getElem?_lt hj
+      obtain ⟨k, r, rest, ho⟩ := BQ.pendingFor_ops hp
+      obtain ⟨a, b, c⟩ := BQ.linkS_leq (hA.l.ls j _ n (List.getElem?_eq_getElem hjl) hj) ho
+      exact ⟨j, _, n, List.getElem?_eq_getElem hjl, hj, a, b, c, hp⟩
+  · intro i sl hi hpc hsem hlt
+    rcases BQ.mon_parked hA.m.items hjI hi hpc hsem hlt with h | ⟨j, n, hj, hp⟩
+    · exact Or.inl h
+    · right
+      have hjl : j < ((BQ.sys cap progs).run sched).thr.length := by rw [← hA.l.lenI]; exact getElem?_lt hj
+      obtain ⟨k, r, rest, ho⟩ := BQ.pendingFor_ops hp
+      obtain ⟨a, b, c⟩ := BQ.linkI_leq (hA.l.li j _ n (List.getElem?_eq_getElem hjl) hj) ho
+      exact ⟨j, _, n, List.getElem?_eq_getElem hjl, hj, a, b, c, hp⟩
+
+/-- **`abort()` wakes every blocked thread — for EVERY history** (no hypothesis: aborted pushes, invalid tickets and
+racing aborts included).  A thread parked in `P()` with a closed semaphore on either monitor whose `old_abort_counter`
+differs from `my_abort_counter` (some `abort()` has incremented the counter since the operation began) is owed a `V` by a
+notifier that has already dequeued it, or an `abort_all()` of that monitor is still before its flush of the wait set (it
+is between the `++my_abort_counter` and the flush, and the flush takes the whole wait set:
+`monitor_abort_wakes_all`). -/
+theorem bq_abort_wakes_all (cap : Nat) (progs : List (List BQ.Op)) (sched : List Tid) (s : BQ.St)
+    (hs : s = (BQ.sys cap progs).run sched) (i : Nat) (th : BQ.Thr) (hth : s.thr[i]? = some th) (hold : th.old ≠ s.abortc) :
+    (∀ (sl : Sleeper), s.slots.slp[i]? = some sl → sl.pc = .park → sl.sem = 0 →
+      (∃ (j : Nat) (n : Notifier), s.slots.ntf[j]? = some n ∧ i ∈ n.temp) ∨
+      (∃ (j : Nat) (n : Notifier), s.slots.ntf[j]? = some n ∧ BQ.pendingAbort n = true)) ∧
+    (∀ (sl : Sleeper), s.items.slp[i]? = some sl → sl.pc = .park → sl.sem = 0 →
+      (∃ (j : Nat) (n : Notifier), s.items.ntf[j]? = some n ∧ i ∈ n.temp) ∨
+      (∃ (j : Nat) (n : Notifier), s.items.ntf[j]? = some n ∧ BQ.pendingAbort n = true)) := by
+  subst hs
+  have hA := BQ.reach_all cap progs sched
+  constructor
+  · intro sl hi hpc hsem
+    have hne : sl.ops ≠ [] := by intro e; have := hA.m.slots.inv.opsS i sl hi e; rw [this] at hpc; cases hpc
+    rcases BQ.mon_parked_abort hA.m.slots hi hpc hsem with hW | h
+    · exact Or.inr (hA.k.kS i th sl hth hi hne (Or.inr (Or.inr hpc)) hW hold)
+    · exact Or.inl h
+  · intro sl hi hpc hsem
+    have hne : sl.ops ≠ [] := by intro e; have := hA.m.items.inv.opsS i sl hi e; rw [this] at hpc; cases hpc
+    rcases BQ.mon_parked_abort hA.m.items hi hpc hsem with hW | h
+    · exact Or.inr (hA.k.kI i th sl hth hi hne (Or.inr (Or.inr hpc)) hW hold)
+    · exact Or.inl h
+
+/-- **At quiescence nobody sleeps on a satisfied condition.**  When no thread is inside a `notify` / `abort_all` call or
+between a ticket and the `notify` it obliges to (every notifier record of both monitors is idle), then no thread is parked
+with a closed semaphore while `my_abort_counter` differs from its snapshot (any history), and — in a clean history — none
+while `head_counter > target` (push) / `tail_counter > target` (pop). -/
+theorem bq_quiescent_no_sleeper_on_true (cap : Nat) (progs : List (List BQ.Op)) (sched : List Tid) (s : BQ.St)
+    (hs : s = (BQ.sys cap progs).run sched)
+    (hq : ∀ (j : Nat) (n : Notifier), (s.slots.ntf[j]? = some n ∨ s.items.ntf[j]? = some n) → n.ops = [])
+    (i : Nat) (th : BQ.Thr) (hth : s.thr[i]? = some th) (sl : Sleeper) (hpc : sl.pc = .park) (hsem : sl.sem = 0) :
+    (s.slots.slp[i]? = some sl → th.old = s.abortc ∧ (s.clean = true → s.head ≤ sl.ctx)) ∧
+    (s.items.slp[i]? = some sl → th.old = s.abortc ∧ (s.clean = true → s.tail ≤ sl.ctx)) := by
+  have hA : BQ.AllInv s := by rw [hs]; exact BQ.reach_all cap progs sched
+  have idleS : ∀ (j : Nat) (n : Notifier), s.slots.ntf[j]? = some n → n.temp = [] ∧ n.ops = [] := by
+    intro j n hj
+    have ho := hq j n (Or.inl hj)
+    exact ⟨((hA.m.slots.inv.ntf j n hj).2.2.2.2.1 ho).1, ho⟩
+  have idleI : ∀ (j : Nat) (n : Notifier), s.items.ntf[j]? = some n → n.temp = [] ∧ n.ops = [] := by
+    intro j n hj
+    have ho := hq j n (Or.inr hj)
+    exact ⟨((hA.m.items.inv.ntf j n hj).2.2.2.2.1 ho).1, ho⟩
+  constructor
+  · intro hi
+    constructor
+    · apply Classical.byContradiction
+      intro hne
+      rcases (bq_abort_wakes_all cap progs sched s hs i th hth hne).1 sl hi hpc hsem with ⟨j, n, hj, hm⟩ | ⟨j, n, hj, hp⟩
+      · rw [(idleS j n hj).1] at hm; simp at hm
+      · simp [BQ.pendingAbort, (idleS j n hj).2] at hp
+    · intro hc
+      apply Classical.byContradiction
+      intro hlt
+      rcases (bq_blocked_ops_complete cap progs sched s hs hc).1 i sl hi (Or.inr hpc) hsem (by omega) with ⟨j, n, hj, hm⟩ | ⟨j, _, n, _, hj, _, _, _, hp⟩
+      · rw [(idleS j n hj).1] at hm; simp at hm
+      · rw [BQ.pendingFor_idle' (idleS j n hj).2] at hp; cases hp
+  · intro hi
+    constructor
+    · apply Classical.byContradiction
+      intro hne
+      rcases (bq_abort_wakes_all cap progs sched s hs i th hth hne).2 sl hi hpc hsem with ⟨j, n, hj, hm⟩ | ⟨j, n, hj, hp⟩
+      · rw [(idleI j n hj).1] at hm; simp at hm
+      · simp [BQ.pendingAbort, (idleI j n hj).2] at hp
+    · intro hc
+      apply Classical.byContradiction
+      intro hlt
+      rcases (bq_blocked_ops_complete cap progs sched s hs hc).2 i sl hi (Or.inr hpc) hsem (by omega) with ⟨j, n, hj, hm⟩ | ⟨j, _, n, _, hj, _, _, _, hp⟩
+      · rw [(idleI j n hj).1] at hm; simp at hm
+      · rw [BQ.pendingFor_idle' (idleI j n hj).2] at hp; cases hp
+
+/-! non-vacuity: (1) capacity 1, the second `push` of thread 0 parks on `slots_avail` (clean history); the `pop` of thread
+1 takes ticket 0 — now `head_counter > target` and the popper is the pending notifier the theorem names.  (2) a parked
+`pop`, then `++my_abort_counter`: the aborter's `abort_all(items_avail)` is pending.  (3) the hypothesis `clean` is
+needed: after an aborted blocked push (ticket 1 invalidated by `abort_push`) the pop that skips ticket 1 never notifies
+`slots_avail` for it: the pusher of ticket 2 stays parked with `head_counter = 3 > target = 1`, no `V` owed, no notifier
+pending for it, while the popper spins for item 2 (the C09 finding `bounded-pop-skips-invalid-ticket-without-notify-deadlock`). -/
+set_option maxRecDepth 100000 in
+example :
+    let s := (BQ.sys 1 [[.push, .push], [.pop]]).run (List.replicate 20 0 ++ [1, 1])
+    s.clean = true ∧ s.head = 1 ∧ (s.slots.slp[0]?.map (fun sl => (sl.pc, sl.sem, sl.ctx))) = some (.park, 0, 0) ∧
+    (s.thr[1]?.map (fun th => (th.pc, th.ticket))) = some (.qLoadTail, 0) ∧
+    (s.slots.ntf[1]?.map (fun n => pendingFor n 0 0)) = some true := by decide
+set_option maxRecDepth 100000 in
+example :
+    let s := (BQ.sys 1 [[.abort], [.pop]]).run (List.replicate 14 1 ++ [0])
+    s.abortc = 1 ∧ (s.items.slp[1]?.map (fun sl => (sl.pc, sl.sem))) = some (.park, 0) ∧ (s.thr[1]?.map (·.old)) = some 0 ∧
+    (s.items.ntf[0]?.map BQ.pendingAbort) = some true := by decide
+set_option maxRecDepth 100000 in
+example :
+    let s := (BQ.sys 1 [[.push], [.push], [.push], [.abort], [.pop, .pop]]).run
+      (List.replicate 6 0 ++ List.replicate 13 1 ++ List.replicate 11 3 ++ [1, 1] ++ List.replicate 13 2 ++ List.replicate 15 4)
+    s.clean = false ∧ s.head = 3 ∧ (s.slots.slp[2]?.map (fun sl => (sl.pc, sl.sem, sl.ctx))) = some (.park, 0, 1) ∧
+    (s.slots.ntf.all fun n => n.temp.isEmpty && !pendingFor n 1 1) = true ∧
+    (s.thr.map (·.pc)) = [.pLoadAbort, .pLoadAbort, .pWait, .pLoadAbort, .qConsume] ∧ s.published 2 = none := by decide
+
+/-! ### arena::enqueue_task: the demand an enqueued task keeps registered
+
+Model `AE` (Model/C02AE.lean): any number of threads running any programs of `enq` (`arena::enqueue_task` →
+`advertise_new_work<work_enqueued>`), `oow` (`arena::out_of_work`) and `takeF` (a task of the fifo stream is taken) on
+one arena with `my_num_slots > my_num_reserved_slots`, `W = my_max_num_workers` (0 = worker-less arena) and a configured
+soft limit `soft0` (0 = `max_allowed_parallelism = 1`); the two three-state flags are `Flag` model instances at access
+granularity, `threading_control_impl::adjust_demand` = the proxy's `fetch_add` + enable/disable re-check + the market's
+critical section. -/
+
+/-- **An enqueued task keeps a worker requested — for every schedule of enqueuers, leaving threads and the demand
+bookkeeping, with any soft limit, also for a worker-less arena.**  In every reachable state in which no `enqueue` is in
+progress (threads may be anywhere inside `out_of_work` or a pending withdrawal of demand) and a task sits in the fifo
+stream: both flags are set (`my_mandatory_concurrency`, `my_pool_state`); `arena::my_mandatory_requests ≥ 1` and
+`my_total_num_workers_requested ≥ 1`, so the client's `min_workers = 1` and `max_workers ≥ 1`; the proxy's
+`my_num_mandatory_requests ≥ 1`; the serializer's soft limit is ≥ 1 — with a configured soft limit 0 mandatory
+concurrency is enabled (the enable check of the `fetch_add` that crossed 0 → 1 has run); and the waiting-threads monitor
+has been notified at least once (`request_workers(..., wakeup_threads = true)`; what the notification does to parked
+threads is `monitor_no_lost_wakeup` / `wait_ctx_sleep_no_loss_mixed`). -/
+theorem arena_enqueue_mandatory (W soft0 : Nat) (progs : List (List AE.Op)) (sched : List Tid) (s : AE.St)
+    (hs : s = (AE.sys W soft0 progs).run sched)
+    (hq : ∀ (i : Nat) (th : AE.Thr), s.thr[i]? = some th → th.advertising = false)
+    (hf : 0 < s.fm.work) :
+    s.fm.flag ≠ 0 ∧ s.fp.flag ≠ 0 ∧ 1 ≤ s.mandReq ∧ 1 ≤ s.totalReq ∧ s.minW = 1 ∧ 1 ≤ s.maxW ∧ 1 ≤ s.numMand ∧
+    1 ≤ s.soft ∧ (s.soft0 = 0 → s.enabled = true) ∧ 1 ≤ s.wakeups := by
+  subst hs
+  exact AE.enqueue_demand (AE.reach_all W soft0 progs sched) hq hf
+
+/-- **The bookkeeping is exact.**  In every reachable state: what the market registered plus what threads still hold as
+not-yet-applied deltas equals what the mandatory flag says (`my_mandatory_requests + pending = [flag ≠ UNSET]`), likewise
+for the proxy's counter; a flag is UNSET while tasks are in the stream only if an `enqueue` is still on its way to set it
+(`flag_no_missed_work` for both flags); `mandatory_delta ∈ {-1, 0, 1}`. -/
+theorem arena_demand_accounting (W soft0 : Nat) (progs : List (List AE.Op)) (sched : List Tid) (s : AE.St)
+    (hs : s = (AE.sys W soft0 progs).run sched) :
+    s.mandReq + AE.tsum AE.pendM s = (if s.fm.flag = 0 then 0 else 1) ∧
+    s.numMand + AE.tsum AE.pendP s = (if s.fm.flag = 0 then 0 else 1) ∧
+    (s.fm.flag = 0 → s.fm.work ≤ Flag.nAll s.fm) ∧ (s.fp.flag = 0 → s.fp.work ≤ Flag.nAll s.fp) ∧ s.fm.work ≤ s.fp.work ∧
+    (∀ (i : Nat) (th : AE.Thr), s.thr[i]? = some th → -1 ≤ th.md ∧ th.md ≤ 1) := by
+  subst hs
+  have h := AE.reach_all W soft0 progs sched
+  have d := h.sv.fm.d
+  refine ⟨?_, ?_, h.sv.fm.a, h.sv.fp.a, h.wi.wle, fun i th hi => (h.bd i th hi).2⟩
+  · rw [h.ac.a1]; split <;> simp_all <;> omega
+  · rw [h.ac.a2]; split <;> simp_all <;> omega
+
+/-! non-vacuity: (1) one `enqueue` into an arena with one worker slot under a zero soft limit, nobody else: the demand is
+registered and mandatory concurrency enabled; the same for a worker-less arena (`W = 0`: `workers_delta = 1`).
+(2) the race of the assignment: the last worker's `out_of_work` has switched the mandatory flag to `busy` and found the
+stream empty when a second `enqueue` publishes its task and interrupts the clear transaction: the cleaner's final CAS
+fails, nothing is withdrawn, `my_mandatory_requests` stays 1. -/
+example :
+    let s := (AE.sys 1 0 [[.enq]]).run (List.replicate 11 0)
+    s.fm.work = 1 ∧ (s.thr.all fun th => !th.advertising) = true ∧ s.mandReq = 1 ∧ s.totalReq = 1 ∧ s.enabled = true ∧
+    s.soft = 1 ∧ s.wakeups = 1 := by decide
+example :
+    let s := (AE.sys 0 0 [[.enq]]).run (List.replicate 11 0)
+    s.fm.work = 1 ∧ s.mandReq = 1 ∧ s.totalReq = 1 ∧ s.minW = 1 ∧ s.maxW = 1 := by decide
+example :
+    let s := (AE.sys 1 0 [[.enq, .enq], [.takeF, .oow]]).run
+      (List.replicate 11 0 ++ List.replicate 6 1 ++ List.replicate 11 0 ++ List.replicate 12 1)
+    s.fm.work = 1 ∧ s.fm.flag = 1 ∧ s.mandReq = 1 ∧ s.numMand = 1 ∧ s.totalReq = 1 ∧
+    (s.thr.map (·.ops)) = [[], []] := by decide
+
+/-! ### task_arena::execute waiting for a slot
+
+Model `EX` (Model/C02EX.lean): N application threads calling `task_arena::execute` on one arena with `S` slots that an
+external thread may occupy, at the granularity of the atomic accesses of `task_arena_impl::execute` (the first
+`occupy_free_slot`, `enqueue_task(delegated_task)`, the loop `prepare_wait` / `wo.continue_execution()` /
+`occupy_free_slot` / `cancel_wait` | `commit_wait`, the baton `notify_one()` after the loop, `r1::wait(wo)` inside the
+arena, `~nested_arena_context`: `slot.release()` + `my_exit_monitors.notify_one()`, `~delegated_task`, `~thread_context`),
+of `delegated_task::finalize()` (`m_wait_ctx.release()`; `m_monitor.notify(ctx == &m_delegate)`, run by whichever thread
+executes the task) and of `arena::occupy_free_slot` (one step per `try_occupy()`, any scan order).  The exit monitor IS a
+Monitor model instance: in every reachable state it satisfies the Monitor invariant (`EX.reach_mon`), so all `monitor_*`
+facts above hold for it. -/
+
+/-- **A thread waiting in `task_arena::execute` whose delegated task has been executed by somebody else is woken.**  Any
+number of threads, slots, calls, any schedule.  In every reachable state: a waiter `t` in `commit_wait` or parked in `P()`
+with a closed semaphore, while the `wait_context` of its delegated task is released (`wo.continue_execution()` would
+return false: the executor ran `m_wait_ctx.release()`), is owed a `V` by a notifier that has already dequeued it, or the
+`finalize()` of its delegated task is still before the end of its `notify(ctx == &m_delegate)` scan of the exit monitor,
+and that scan dequeues the waiter (`pendingFor`: the waiter's context is `&m_delegate`). -/
+theorem execute_waiter_woken (S : Nat) (calls : List Nat) (sched : List Tid) (s : EX.St)
+    (hs : s = (EX.sys S calls).run sched) (t : Nat) (sl : Sleeper) (hsl : s.mon.slp[t]? = some sl)
+    (hpc : sl.pc = .commit ∨ sl.pc = .park) (hsem : sl.sem = 0) (hdone : s.mon.cond t = true) :
+    (∃ (j : Nat) (n : Notifier), s.mon.ntf[j]? = some n ∧ t ∈ n.temp) ∨
+    (∃ (j : Nat) (n : Notifier), s.mon.ntf[j]? = some n ∧ pendingFor n t (t + 1) = true) := by
+  subst hs
+  exact EX.completed_core (EX.reach_mon S calls sched) hsl hpc hsem hdone
+
+/-- **A slot released between the waiter's re-check and `commit_wait` is not missed.**  In every reachable state: a
+waiter `t` that is in the wait set of the exit monitor and whose node epoch is still the monitor's epoch (no notification
+has locked the monitor since `prepare_wait` enqueued it — in particular a waiter whose `commit_wait` is about to succeed,
+or has just succeeded): every slot `k` that its `occupy_free_slot` found occupied in this round (`k ∉ todo`) and that is
+free now was released by a thread `u` that is inside the `my_exit_monitors.notify_one()` following its
+`slot.release()` and has not yet locked the monitor (`preBump`: at the fence, the emptiness test — which will see the
+waiter's node —, the lock or the epoch store).  So the waiter either fails `commit_wait` (epoch changed) or the
+notification is still to come: the window between the predicate re-check and `commit_wait` is closed for `execute`. -/
+theorem execute_release_not_missed (S : Nat) (calls : List Nat) (sched : List Tid) (s : EX.St)
+    (hs : s = (EX.sys S calls).run sched) (t : Nat) (th : EX.Thr) (sl : Sleeper)
+    (hth : s.thr[t]? = some th) (hsl : s.mon.slp[t]? = some sl) (hw : t ∈ s.mon.waitset) (hep : sl.nepoch = s.mon.epoch)
+    (k : Nat) (hk : k < s.slots.length) (htried : k ∉ th.todo) (hfree : s.slots.getD k true = false) :
+    ∃ (u : Nat) (thu : EX.Thr) (nu : Notifier), s.thr[u]? = some thu ∧ s.mon.ntf[u]? = some nu ∧
+      thu.pc = .notify ∧ thu.rel = true ∧ thu.idx = k ∧ preBump nu = true := by
+  subst hs
+  have h := EX.reach_all S calls sched
+  exact h.p.psi t th sl hth hsl (EX.ws_wait h.ld hth hw) hw hep k hk htried hfree
+
+/-- **A parked waiter has seen every slot occupied; if one is free while the monitor's epoch is still the waiter's, the
+releaser's `notify_one` is pending.**  (`park` is reached only after the scan failed on every slot: `todo = []`.) -/
+theorem execute_parked_sees_release (S : Nat) (calls : List Nat) (sched : List Tid) (s : EX.St)
+    (hs : s = (EX.sys S calls).run sched) (t : Nat) (th : EX.Thr) (sl : Sleeper)
+    (hth : s.thr[t]? = some th) (hsl : s.mon.slp[t]? = some sl) (hpc : sl.pc = .park) (hw : t ∈ s.mon.waitset)
+    (hep : sl.nepoch = s.mon.epoch) (k : Nat) (hk : k < s.slots.length) (hfree : s.slots.getD k true = false) :
+    ∃ (u : Nat) (thu : EX.Thr) (nu : Notifier), s.thr[u]? = some thu ∧ s.mon.ntf[u]? = some nu ∧
+      thu.pc = .notify ∧ thu.rel = true ∧ thu.idx = k ∧ preBump nu = true := by
+  have h : EX.AllInv s := by rw [hs]; exact EX.reach_all S calls sched
+  have := (EX.parked_thread h hth hsl hpc).2
+  exact execute_release_not_missed S calls sched s hs t th sl hth hsl hw hep k hk (by rw [this]; simp) hfree
+
+/-! non-vacuity: (1) one slot, thread 0 inside the arena, thread 1 parked in the exit monitor; the executor of thread
+1's delegated task releases its `wait_context`: `finalize()`'s notification is the pending notifier.  (2) thread 1 has
+failed its scan and stands before `commit_wait` with an up-to-date epoch when thread 0 releases the slot: thread 0 is
+the pending releaser the theorem names.  (3) what the theorems do NOT claim — and the code does not do: two slots;
+`X` (thread 2) occupies slot 1 in its wait loop and is still in the wait set (before `cancel_wait`) when `W` (thread 3)
+parks behind it; thread 0 releases slot 0 and its `notify_one` dequeues `X` (`absorbed`): now slot 0 is free, `W` is
+parked in the wait set with a stale node epoch, no notification is pending, the only `V` around went to `X`, which is
+inside the arena: `W` sleeps until `X` leaves (KNOWN_FINDINGS: execute-wakeup-absorbed-by-entering-waiter). -/
+set_option maxRecDepth 100000 in
+example :
+    let s := (EX.sys 1 [1, 1]).run [0, 1, 1, 1, 1, 1, 1, 1, 1, 1, 1, 1, 1, 1, 3]
+    (s.mon.slp[1]?.map (fun sl => (sl.pc, sl.sem))) = some (.park, 0) ∧ s.mon.cond 1 = true ∧ s.mon.waitset = [1] ∧
+    (s.mon.ntf[3]?.map (fun n => pendingFor n 1 2)) = some true := by decide
+set_option maxRecDepth 100000 in
+example :
+    let s := (EX.sys 1 [1, 1]).run [0, 1, 1, 1, 1, 1, 1, 1, 1, 1, 1, 1, 1, 0]
+    (s.mon.slp[1]?.map (fun sl => (sl.pc, sl.nepoch))) = some (.park, s.mon.epoch) ∧ s.mon.waitset = [1] ∧
+    s.slots = [false] ∧ (s.thr[0]?.map (fun th => (th.pc, th.rel, th.idx))) = some (.notify, true, 0) ∧
+    (s.mon.ntf[0]?.map preBump) = some true := by decide
+set_option maxRecDepth 100000 in
+example :
+    let s := (EX.sys 2 [1, 1, 1, 1]).run
+      [0, 9, 2, 2, 1, 1, 1, 2, 2, 2, 2, 2, 2, 2, 2, 2, 2, 2, 3, 3, 3, 3, 3, 3, 3, 3, 3, 3, 3, 3, 11, 3, 3, 0, 0, 0, 0, 0, 0,
+       0, 0, 0, 0, 2, 2, 2, 2, 2, 2]
+    s.absorbed = true ∧ s.slots = [false, true] ∧ s.mon.waitset = [3] ∧
+    (s.mon.slp[3]?.map (fun sl => (sl.pc, sl.sem, sl.nepoch))) = some (.park, 0, 0) ∧ s.mon.epoch = 1 ∧
+    (s.mon.ntf.all fun n => n.ops.isEmpty || n.pc == .set) = true ∧
+    (s.thr.map (·.pc)) = [.scan1, .scan1, .inner, .wait] ∧ (s.thr.map (·.ops)) = [0, 0, 1, 1] := by decide
 
 end TbbVerif.C02
